@@ -17,7 +17,7 @@
    target / the target's entry when there is one (clause b). *)
 From Coq Require Import String List Bool ZArith QArith Arith Lia Permutation.
 From GV Require Import Base.Outcome Base.AMap Model.GState Model.Creation Model.Query Model.Derived Model.Cent
-     Model.Closeness Model.Dijkstra.
+     Model.Brandes Model.Closeness Model.Dijkstra.
 From GV Require Import Spec.AGraph Spec.History Spec.ShortestPathDef Spec.ShortestPathRel Spec.EdgeStoreGraph
      Spec.EdgeStoreAdj Spec.ClosenessDef.
 From GV Require Import Proofs.AMapOk Proofs.WFDefs Proofs.HistoryOk Proofs.AdjOk Proofs.ClosenessStateOk
@@ -242,5 +242,72 @@ Section EdgeStoreOnly.
     apply (is_closeness_unique (edge_zadj weighted g2) i wf).
     - apply (is_closeness_refines _ _ i wf c1 R). exact (C1 i x1 c1 N1).
     - exact (C2 i x2 c2 N2).
+  Qed.
+  (* ================================================================ for reachable graphs, possibly under different GraphSpecs *)
+  Notation reachable := (reachable teqb tltb).
+
+  Lemma reachable_pair (s1 s2 : specs) (g1 g2 : gstate) :
+    reachable s1 g1 -> reachable s2 g2 -> directed s1 = directed s2 ->
+    WF g1 /\ WF g2 /\ directed (sp g1) = directed (sp g2).
+  Proof.
+    intros R1 R2 Hd.
+    rewrite (reachable_sp teqb tltb teqb_spec tltb_asym tltb_total s1 g1 R1),
+            (reachable_sp teqb tltb teqb_spec tltb_asym tltb_total s2 g2 R2).
+    split; [exact (WF_reachable teqb tltb teqb_spec tltb_asym tltb_total s1 g1 R1)|].
+    split; [exact (WF_reachable teqb tltb teqb_spec tltb_asym tltb_total s2 g2 R2) | exact Hd].
+  Qed.
+
+  Theorem distances_edge_store_only (s1 s2 : specs) (g1 g2 : gstate) weighted source target cutoff fo wp si :
+    reachable s1 g1 -> reachable s2 g2 -> directed s1 = directed s2 ->
+    names g1 = names g2 -> Permutation (get_all_edges g1) (get_all_edges g2) ->
+    small_adj g1 -> small_adj g2 ->
+    (weighted = true -> weights_nonneg g1 /\ weights_real g1) ->
+    name_at g1 si = Some source -> (forall t, target = Some t -> In t (names g1)) ->
+    cutoff_exceeded cutoff 0 = false ->
+    exists m1 m2,
+      single_source teqb g1 weighted source target cutoff fo wp = Ok m1 /\
+      single_source teqb g2 weighted source target cutoff fo wp = Ok m2 /\
+      (forall y i1 i2, lookup teqb y m1 = Some i1 -> lookup teqb y m2 = Some i2 -> sp_distance i1 = sp_distance i2) /\
+      (forall y, target = None \/ target = Some y ->
+                 option_map sp_distance (lookup teqb y m1) = option_map sp_distance (lookup teqb y m2)).
+  Proof.
+    intros R1 R2 Hd Hn HP S1 S2 Hw Hsrc Ht Hc. destruct (reachable_pair s1 s2 g1 g2 R1 R2 Hd) as [W1 [W2 Hd']].
+    apply (distances_edge_multiset g1 g2 weighted source target cutoff fo wp si); assumption.
+  Qed.
+
+  Theorem closeness_edge_store_only (s1 s2 : specs) (g1 g2 : gstate) lw1 lw2 weighted wf :
+    reachable s1 g1 -> reachable s2 g2 -> directed s1 = directed s2 ->
+    names g1 = names g2 -> Permutation (get_all_edges g1) (get_all_edges g2) ->
+    (weighted = true -> positive_weights g1) ->
+    exists m1 m2,
+      closeness_centrality teqb tltb lw1 g1 weighted wf = Ok m1 /\
+      closeness_centrality teqb tltb lw2 g2 weighted wf = Ok m2 /\
+      map fst m1 = map fst m2 /\ Forall2 Qeq (map snd m1) (map snd m2).
+  Proof.
+    intros R1 R2 Hd Hn HP P1. destruct (reachable_pair s1 s2 g1 g2 R1 R2 Hd) as [W1 [W2 Hd']].
+    assert (P2 : weighted = true -> positive_weights g2).
+    { intros Hw e He. apply (P1 Hw). apply (Permutation_in _ (Permutation_sym HP)). exact He. }
+    destruct (closeness_centrality_spec teqb tltb teqb_spec tltb_asym tltb_total g1 lw1 weighted wf W1 P1) as [m1 [E1 _]].
+    destruct (closeness_centrality_spec teqb tltb teqb_spec tltb_asym tltb_total g2 lw2 weighted wf W2 P2) as [m2 [E2 _]].
+    exists m1, m2. split; [exact E1|]. split; [exact E2|].
+    exact (closeness_edge_multiset g1 g2 lw1 lw2 weighted wf m1 m2 W1 W2 P1 Hn Hd' HP E1 E2).
+  Qed.
+
+  Theorem betweenness_edge_store_only (s1 s2 : specs) (g1 g2 : gstate) lw1 lw2 weighted normalized :
+    reachable s1 g1 -> reachable s2 g2 -> directed s1 = directed s2 ->
+    names g1 = names g2 -> Permutation (get_all_edges g1) (get_all_edges g2) ->
+    (weighted = true -> weights_real_positive g1) ->
+    exists m1 m2,
+      betweenness_centrality lw1 g1 weighted normalized = Ok m1 /\
+      betweenness_centrality lw2 g2 weighted normalized = Ok m2 /\
+      map fst m1 = map fst m2 /\ Forall2 Qeq (map snd m1) (map snd m2).
+  Proof.
+    intros R1 R2 Hd Hn HP P1. destruct (reachable_pair s1 s2 g1 g2 R1 R2 Hd) as [W1 [W2 Hd']].
+    assert (P2 : weighted = true -> weights_real_positive g2).
+    { intros Hw. apply (weights_real_positive_perm g1 g2 HP). apply P1. exact Hw. }
+    destruct (betweenness_WF teqb tltb teqb_spec tltb_total g1 lw1 weighted normalized W1 P1) as [m1 [_ [E1 _]]].
+    destruct (betweenness_WF teqb tltb teqb_spec tltb_total g2 lw2 weighted normalized W2 P2) as [m2 [_ [E2 _]]].
+    exists m1, m2. split; [exact E1|]. split; [exact E2|].
+    exact (betweenness_edge_multiset teqb tltb teqb_spec tltb_total g1 g2 lw1 lw2 weighted normalized m1 m2 W1 W2 P1 Hn Hd' HP E1 E2).
   Qed.
 End EdgeStoreOnly.
